@@ -21,7 +21,9 @@ RULE = (
     "its own instantiation by the oracle and, through the per-occurrence kinds of the extracted CFG, by the model; systematic "
     "scope (1c): 432 programs with two generic calls at different instantiations, straight-line / across a branch / a loop; "
     "linear arrays `array[qubit, 2]` whose elements are lent (`h(a[0])`, `cx(a[0], a[1])`, `bor(a[n])`, the array lent whole "
-    "and through an element in one call) or wrongly moved out (MoveOutOfSubscriptError), systematic scope (1d) of 864 programs). "
+    "and through an element in one call) or wrongly moved out (MoveOutOfSubscriptError), systematic scope (1d) of 864 programs; "
+    "arrays of structs `array[T, 2]` (T = {q: qubit, n: int}): reading the copyable field, moving / lending the linear field or "
+    "the whole element -- anything taken out of an element of non-copyable type is a move-out unless lent, scope (1e) of 108). "
     "Streams: (1) the hand-written corpus (facts of DESIGN.md, gap and fix witnesses, near-miss shapes); (1b) a systematic "
     "scope of 192 programs that re-bind a variable qubit<->int in a block it flows into; (2) a small "
     "scope enumerated systematically: 5 control skeletons x {owned, borrowed, local} x 4 slots x 5 actions, on a qubit and on a "
@@ -105,10 +107,11 @@ MANIFEST = {
 
 STRUCTS = {"S": [("a", "Q"), ("b", "Q")], "T": [("q", "Q"), ("n", "I")], "U": [("s", "S"), ("q", "Q")]}
 TUPLES = {"P": ["Q", "Q"], "R": ["Q", "I"]}
-LEAFT = {"Q": True, "I": False, "B": False, "A": True}  # leaf type -> linear?  (A: array[qubit, 2], one leaf)
-VTYPE = {"q": "Q", "n": "I", "c": "B", "s": "S", "t": "T", "u": "U", "p": "P", "r": "R", "a": "A"}
+LEAFT = {"Q": True, "I": False, "B": False, "A": True, "AT": True}  # leaf type -> linear?  (A: array[qubit, 2], one leaf)
+VTYPE = {"q": "Q", "n": "I", "c": "B", "s": "S", "t": "T", "u": "U", "p": "P", "r": "R", "a": "A", "b": "AT"}
+ELEM = {"A": "Q", "AT": "T"}  # element types of the (linear, one-leaf) array types
 GUPPY_TY = {"*": "TL", "*d": "TD", "*c": "TC", "Q": "qubit", "I": "int", "B": "bool", "S": "S", "T": "T", "U": "U",
-            "P": "tuple[qubit, qubit]", "R": "tuple[qubit, int]", "A": "array[qubit, 2]"}
+            "P": "tuple[qubit, qubit]", "R": "tuple[qubit, int]", "A": "array[qubit, 2]", "AT": "array[T, 2]"}
 
 # name -> ([(mode, type)…], return type | None);  mode "o" owned, "b" borrowed, "c" copyable (no flag)
 FUNS = {
@@ -123,6 +126,7 @@ FUNS = {
     "measure": ([("o", "Q")], "B"), "discard": ([("o", "Q")], None), "h": ([("b", "Q")], None), "cx": ([("b", "Q"), ("b", "Q")], None),
     "geti": ([("c", "I")], "I"),
     "mkA": ([], "A"), "useA": ([("o", "A")], None), "borA": ([("b", "A")], None),
+    "mkAT": ([], "AT"), "useAT": ([("o", "AT")], None), "borAT": ([("b", "AT")], None),
     "borAQ": ([("b", "A"), ("b", "Q")], None), "borQA": ([("b", "Q"), ("b", "A")], None),
     # generic helpers: parameter type `*` = a type variable without bounds (any instantiation), `*d` droppable only,
     # `*c` copyable and droppable; each call is judged at its own instantiation
@@ -192,16 +196,24 @@ def sub_types(ty):
     return []
 
 
+def sub_at(pl):
+    """position of the subscript element "#0" / "#n1" in the path of `a0[0]`, `b0[n1].q`, …; None if there is none"""
+    for i, el in enumerate(pl[1]):
+        if isinstance(el, str) and el.startswith("#"):
+            return i
+    return None
+
+
 def is_sub(pl):
-    """a subscript place `a0[0]` / `a0[n1]`: last path element "#0" / "#n1" """
-    return bool(pl[1]) and isinstance(pl[1][-1], str) and pl[1][-1].startswith("#")
+    """the place is an array element or a projection of one: for linearity only the array counts"""
+    return sub_at(pl) is not None
 
 
 def place_type(pl):
     ty = vtype(pl[0])
     for el in pl[1]:
         if isinstance(el, str) and el.startswith("#"):
-            ty = "Q"
+            ty = ELEM[ty]
             continue
         ty = dict(sub_types(ty))[el]
     return ty
@@ -210,7 +222,7 @@ def place_type(pl):
 def leaves_of(pl):
     """leaf places of a place, each as (var, path); an element of an array stands for the array (one leaf)"""
     if is_sub(pl):
-        return leaves_of((pl[0], pl[1][:-1]))
+        return leaves_of((pl[0], pl[1][:sub_at(pl)]))
     ty = place_type(pl)
     subs = sub_types(ty)
     if not subs:
@@ -597,8 +609,8 @@ class _Enc:
         sub = contains_subscript(place)
         if sub is None:
             return None
-        if sub is not place or contains_subscript(sub.parent) is not None:
-            raise Unsupported("projection of / nested subscript")
+        if contains_subscript(sub.parent) is not None:
+            raise Unsupported("nested subscript")
         return sub
 
     def pattern(self, node):
@@ -775,10 +787,11 @@ def run_real(src):
 # generator: valid by construction, then near-miss mutations
 # --------------------------------------------------------------------------------------
 
-MAKERS = {"Q": ["qubit", "mk"], "S": ["mkS"], "T": ["mkT"], "U": ["mkU"], "P": ["mkP"], "R": ["mkR"], "A": ["mkA"]}
+MAKERS = {"Q": ["qubit", "mk"], "S": ["mkS"], "T": ["mkT"], "U": ["mkU"], "P": ["mkP"], "R": ["mkR"], "A": ["mkA"],
+          "AT": ["mkAT"]}
 USERS = {"Q": ["use", "discard", "measure"], "S": ["useS"], "T": ["useT"], "U": ["useU"], "P": ["useP"], "R": ["useR"],
-         "A": ["useA"]}
-BORROWERS = {"Q": ["bor", "h"], "S": ["borS"], "T": ["borT"], "U": ["borU"], "P": ["borP"], "R": ["borR"], "A": ["borA"]}
+         "A": ["useA"], "AT": ["useAT"]}
+BORROWERS = {"Q": ["bor", "h"], "S": ["borS"], "T": ["borT"], "U": ["borU"], "P": ["borP"], "R": ["borR"], "A": ["borA"], "AT": ["borAT"]}
 
 
 class Gen:
@@ -849,6 +862,26 @@ class Gen:
             if st is not None:
                 return st
         places = self.whole_places(owned, defd)
+        arrs_t = [p for p in places if place_type(p) == "AT"]
+        if arrs_t and r.random() < 0.5:
+            # sub-places of elements of an array of structs {q: qubit, n: int}: lent (fine) or taken out (move-out)
+            a = r.choice(arrs_t)
+            el = (a[0], a[1] + ("#" + str(r.randint(0, 1)),))
+            x = r.random()
+            if x < 0.3:
+                return ("call", [], r.choice(["bor", "h"]), [(el[0], el[1] + ("q",))]), owned, defd
+            if x < 0.5:
+                return ("call", [], "borT", [el]), owned, defd
+            if x < 0.7:
+                n = self.fresh("I")
+                return ("move", [(n, ())], [(el[0], el[1] + ("n",))]), owned, defd | {n}
+            if x < 0.8:
+                n = self.fresh("I")
+                return ("call", [(n, ())], "geti", [(el[0], el[1] + ("n",))]), owned, defd | {n}
+            if x < 0.9:
+                return ("call", [], "use", [(el[0], el[1] + ("q",))]), owned, defd
+            t = self.fresh("T")
+            return ("move", [(t, ())], [el]), owned | set(lin_leaves((t, ()))), defd | {t}
         arrs = [p for p in places if place_type(p) == "A"]
         if arrs and r.random() < 0.5:
             # lend elements of a linear array
@@ -868,7 +901,7 @@ class Gen:
                 return ("call", [], "mix", [e1, r.choice(qs)]), owned - set(lin_leaves(qs[-1])) if False else owned, defd
             return ("call", [], "bor", [e1]), owned, defd
         if k < 0.22 or not places:
-            ty = r.choice(["Q", "Q", "Q", "S", "T", "U", "P", "R", "A"])
+            ty = r.choice(["Q", "Q", "Q", "S", "T", "U", "P", "R", "A", "AT"])
             # new variable, or re-fill a fully consumed old place
             empties = [pl for pl in self.empty_places(owned, defd) if self.assignable(pl) and place_type(pl) == ty]
             if empties and r.random() < 0.6:
@@ -1138,7 +1171,7 @@ class Gen:
         defd = set()
         owned = set()
         for _ in range(r.randint(0, 3)):
-            ty = r.choice(["Q", "Q", "S", "T", "U", "P", "R", "A"])
+            ty = r.choice(["Q", "Q", "S", "T", "U", "P", "R", "A", "AT"])
             v = self.fresh(ty)
             b = r.random() < 0.5
             params.append((v, b))
@@ -1678,6 +1711,34 @@ def subscript_scope():
     return out
 
 
+def struct_array_scope():
+    """arrays whose elements are structs {q: qubit, n: int}: reading a copyable field, moving / lending the linear
+    field, moving / lending the whole element -- taking anything out of an element of non-copyable type is a
+    move-out unless it is a borrow that is handed back"""
+    b, n = ("b0", ()), ("n0", ())
+    e, en = ("b0", ("#0",)), ("b0", ("#n0",))
+    menu = [
+        ("move", [("n1", ())], [e[:1] + (e[1] + ("n",),)]), ("call", [("n2", ())], "geti", [(en[0], en[1] + ("n",))]),
+        ("call", [], "h", [(e[0], e[1] + ("q",))]), ("call", [], "use", [(e[0], e[1] + ("q",))]),
+        ("move", [("q1", ())], [(en[0], en[1] + ("q",))]), ("call", [], "borT", [e]), ("call", [], "useT", [en]),
+        ("move", [("t1", ())], [e]), ("call", [], "borAT", [b]), ("call", [], "cx", [(e[0], e[1] + ("q",)), (en[0], en[1] + ("q",))]),
+        ("call", [], "gpeek", [(e[0], e[1] + ("n",))]), ("call", [], "gpeek", [(e[0], e[1] + ("q",))]),
+    ]
+    out = []
+    for mode in ("owned", "borrowed", "local"):
+        for x in menu:
+            for k in range(3):
+                body = [("move", [n], [])]
+                if mode == "local":
+                    body.append(("call", [b], "mkAT", []))
+                body += [x] if k == 0 else ([("if", "c0", [x], [])] if k == 1 else [("while", "c0", [x])])
+                if mode != "borrowed":
+                    body.append(("call", [], "useAT", [b]))
+                params = ([] if mode == "local" else [("b0", mode == "borrowed")]) + [("c0", False)]
+                out.append(({"params": params, "ret": None, "body": body}, ["structarray:" + mode]))
+    return out
+
+
 def generic_scope():
     """two calls of generic helpers at different instantiations within one function, straight-line / across a
     branch / across a loop, in both orders (a memoised or shared signature would judge one at the other's type)"""
@@ -1730,6 +1791,8 @@ def tie(ctx):
         cases.append((prog, tags, "generic-scope"))
     for prog, tags in subscript_scope():
         cases.append((prog, tags, "subscript-scope"))
+    for prog, tags in struct_array_scope():
+        cases.append((prog, tags, "struct-array-scope"))
     n = ctx.n(300, 50000)
     for i in range(n):
         size = ctx.rng.choice([2, 3, 4, 6, 8])
